@@ -86,7 +86,7 @@ func TestVerifC02Stress(t *testing.T) {
 	if thorough {
 		rounds = 5
 	}
-	mailboxes := []string{"unbounded", "segmented", "bounded", "nonblocking-bounded", "priority"}
+	mailboxes := []string{"unbounded", "segmented", "bounded", "nonblocking-bounded", "priority", "upriority", "bpriority", "bstable"}
 	n := 0
 	for r := 0; r < rounds; r++ {
 		for _, mbn := range mailboxes {
@@ -99,6 +99,17 @@ func TestVerifC02Stress(t *testing.T) {
 			n++
 		}
 	}
+}
+
+func TestVerifC02Stash(t *testing.T) {
+	w := newVerifWriter(t, "c02_stash_out.jsonl")
+	defer w.close()
+	per := 200
+	if verifEnvInt("VERIF_THOROUGH", 0) == 1 {
+		per = 1500
+	}
+	w.put(vdRunStashStress("unbounded", 3, per, 2, 4, verifSeed()+61))
+	w.put(vdRunStashStress("segmented", 2, per, 32, 8, verifSeed()+62))
 }
 
 func TestVerifC02Scenarios(t *testing.T) {
@@ -217,7 +228,7 @@ func TestVerifC02FairStall(t *testing.T) {
 		pid.dispatcher.schedule(pid)
 	}
 	out.Completed = true
-	done := vdWaitUntil(1500*time.Millisecond, func() bool { return rec.handledN.Load() >= 2 })
+	done := vdWaitUntil(3*time.Second, func() bool { return rec.handledN.Load() >= 2 })
 	c, _ := rec.snapshot()
 	out.HandledM1, out.HandledM2 = c[1] > 0, c[2] > 0
 	out.Stalled = !done
@@ -304,7 +315,7 @@ func TestVerifC02StoppedActorSpin(t *testing.T) {
 			out.Why = err.Error()
 			return
 		}
-		if !vdWait(m.Entered, 5*time.Second) {
+		if !vdWait(m.Entered, 15*time.Second) {
 			out.Why = "first message not handled"
 			return
 		}
@@ -339,7 +350,7 @@ func TestVerifC02StoppedActorSpin(t *testing.T) {
 		out.Why = "live actor rejected the message: " + err.Error()
 		return
 	}
-	out.LiveActorHandled = vdWaitUntil(2*time.Second, func() bool { c, _ := liveRec.snapshot(); return c[77] > 0 })
+	out.LiveActorHandled = vdWaitUntil(5*time.Second, func() bool { c, _ := liveRec.snapshot(); return c[77] > 0 })
 	out.LiveActorWaitMs = time.Since(t0).Milliseconds()
 }
 
@@ -417,6 +428,6 @@ func TestVerifC02GrainReclaim(t *testing.T) {
 			}
 		}
 	}
-	out.Handled = vdWaitUntil(300*time.Millisecond, func() bool { c, _ := rec.snapshot(); return c[2] > 0 })
+	out.Handled = vdWaitUntil(3*time.Second, func() bool { c, _ := rec.snapshot(); return c[2] > 0 })
 	out.State = c01StateNameLib(pid.schedState.Load())
 }
